@@ -71,15 +71,17 @@ class HeapMixin:
         return self.class_id(kind.name)
 
     # ------------------------------------------------------------ wellformed
-    def wf_value(self, v: SV):
+    def wf_value(self, v: SV, guard=None):
         """Assume typing/allocation facts about a value just read from the heap
         (or received as a parameter / call result)."""
         k = v.kind
+        g = z3.BoolVal(True) if guard is None else guard
         if k.is_ref:
-            self._wf_ref(v.t, k, z3.BoolVal(True))
+            self._wf_ref(v.t, k, g)
         elif k.name == 'opt' and k.args[0].is_ref:
             os_ = sort_of(k)
-            self._wf_ref(os_.val(v.t), k.args[0], os_.is_some(v.t))
+            self._wf_ref(os_.val(v.t), k.args[0],
+                         os_.is_some(v.t) if guard is None else z3.And(g, os_.is_some(v.t)))
         return v
 
     def _wf_ref(self, t, kind, guard):
@@ -188,7 +190,9 @@ class HeapMixin:
 
     def list_get(self, lv, i):
         ek = lv.kind.elem
-        return self.wf_value(SV(ek, z3.Select(self.list_elems(lv), i)))
+        v = SV(ek, z3.Select(self.list_elems(lv), i))
+        # typing/allocation facts hold for positions inside the list only
+        return self.wf_value(v, guard=z3.And(i >= 0, i < self.list_len(lv)))
 
     def list_set_content(self, lv, n, elems):
         ek = lv.kind.elem
@@ -290,7 +294,8 @@ class HeapMixin:
 
     def dict_get(self, dv, key):
         kt = self.coerce(key, dv.kind.key)
-        return self.wf_value(SV(dv.kind.val, z3.Select(self.dict_vals(dv), kt)))
+        return self.wf_value(SV(dv.kind.val, z3.Select(self.dict_vals(dv), kt)),
+                             guard=z3.Select(self.dict_has(dv), kt))
 
     # ------------------------------------------------------------ tuples
     def tuple_items(self, tv):
